@@ -62,3 +62,28 @@ Definition v_ri (imax nrand : Z) (unique : bool) (out out2 : result (list Z)) : 
 (* the branch randcap takes, decided on the exact value of dec *)
 Definition polar_b (dec : Q) : bool :=
   let thr := 3163075050785997 # 35184372088832 in Qle_bool thr dec || Qle_bool dec (- thr).
+
+(* ---------------------------------------------------------------- v_gen, tables computed once
+   (vm_compute is call-by-value: the `let` is evaluated a single time, whereas `sampler`
+   rebuilds the cumulative table for every deviate).  ExecSound.v: v_gen_fast = v_gen. *)
+Definition gen_check_t (tol : Q) (xvals pcum us outs : list Q) : bool :=
+  all2 (fun u o => match interplin xvals pcum u with Ok y => close_b tol y o | Err _ => false end) us outs.
+
+Definition v_gen_fast (pofx x us : list Q) (out : result (list Q)) : Z :=
+  let tbl := gen_tables false pofx x in
+  let xvals := fst tbl in
+  let pcum := snd tbl in
+  let tol := Qred (relq * (qmaxabs x + max_slope xvals pcum)) in
+  verdict (match gen_sample false pofx x us, out with
+           | Ok m, Ok o => all2 (close_b tol) m o
+           | Err a, Err b => err_eqb a b
+           | _, _ => false
+           end)
+          (if gen_ok_b pofx x then
+             match out with
+             | Ok o => gen_check_t tol xvals pcum us o
+                       && pairs_mono_b (2 * tol) (combine us o)
+                       && in_grid_b tol (qnth pcum 0) x (combine us o)
+             | Err _ => false
+             end
+           else true).
